@@ -322,31 +322,31 @@ type variant = { v_realpath_str : bool; v_rectype_bug : bool;
 
 let current =
   { v_realpath_str = false; v_rectype_bug = false; v_auto_follows = false;
-    v_rec_follows = true }
+    v_rec_follows = false }
 
 (** val old_realpath : variant **)
 
 let old_realpath =
   { v_realpath_str = true; v_rectype_bug = false; v_auto_follows = false;
-    v_rec_follows = true }
+    v_rec_follows = false }
 
 (** val old_rectype : variant **)
 
 let old_rectype =
   { v_realpath_str = false; v_rectype_bug = true; v_auto_follows = false;
-    v_rec_follows = true }
+    v_rec_follows = false }
 
 (** val old_autolink : variant **)
 
 let old_autolink =
   { v_realpath_str = false; v_rectype_bug = false; v_auto_follows = true;
-    v_rec_follows = true }
-
-(** val repaired : variant **)
-
-let repaired =
-  { v_realpath_str = false; v_rectype_bug = false; v_auto_follows = false;
     v_rec_follows = false }
+
+(** val old_recfollows : variant **)
+
+let old_recfollows =
+  { v_realpath_str = false; v_rectype_bug = false; v_auto_follows = false;
+    v_rec_follows = true }
 
 type res =
 | ROk of obj * bool
@@ -506,10 +506,10 @@ let identify_old_rectype =
 let identify_old_autolink =
   identify_gen old_autolink
 
-(** val identify_repaired : cfg -> outcome **)
+(** val identify_old_recfollows : cfg -> outcome **)
 
-let identify_repaired =
-  identify_gen repaired
+let identify_old_recfollows =
+  identify_gen old_recfollows
 
 (** val rec_effective : cfg -> bool **)
 
@@ -556,13 +556,6 @@ let spec_strict c =
                   | VNone -> Print (o, ex, c.fname, false)
                   | VMatch -> Exit0
                   | VNonMatch -> Exit1)
-
-(** val known_deviation : cfg -> bool **)
-
-let known_deviation c =
-  match c.arg with
-  | ALinkDir -> (&&) (negb c.deref) c.recur
-  | _ -> false
 
 (** val all_kinds : argkind list **)
 
